@@ -28,7 +28,13 @@
 //!     variable (caller local / parameter / block / loop variable, other activations of a recursion);
 //!     `str_lit` also repeats a placeholder now and then;
 //!   * `long_rows`: strings longer than the largest pool slot (256 bytes) built in a function, returned and
-//!     kept as array elements while storage is allocated through other names.
+//!     kept as array elements while storage is allocated through other names;
+//!   * `effect_idiom` (third round; generators with expected output at the end of this file, also used as C05
+//!     templates): `impure_chain` — mutating methods, index assignments and reads whose receiver / target chain
+//!     holds index expressions with effects (each evaluated exactly once, left to right); `operand_order` — every
+//!     multi-operand construct in which a later operand changes the variable an earlier operand has read;
+//!   * `retype_redeclare` (`retype_program`, also the C04 templates): one name `make`-declared several times in
+//!     the same block at DIFFERENT literal types with capturing functions defined between the declarations.
 #![allow(clippy::too_many_lines, clippy::many_single_char_names)]
 
 use std::sync::atomic::{AtomicBool, Ordering};
@@ -3122,6 +3128,26 @@ impl Gen<'_> {
         if dead {
             return self.dead_defs();
         }
+        // effect order: impure index expressions in receiver / target chains; later operands that change the
+        // variable an earlier operand has read
+        let effects = match self.opts.bias {
+            Bias::Arrays => self.ch(1, 4),
+            Bias::Mixed => self.ch(1, 6),
+            Bias::Scoping | Bias::Control => self.ch(1, 9),
+            _ => self.ch(1, 12),
+        };
+        if effects {
+            return self.effect_idiom();
+        }
+        // the same name declared again in the same block at ANOTHER literal type, capturing functions in between
+        let retype = match self.opts.bias {
+            Bias::Scoping => self.ch(1, 4),
+            Bias::Mixed => self.ch(1, 8),
+            _ => self.ch(1, 14),
+        };
+        if retype {
+            return self.retype_redeclare();
+        }
         // long strings (around and above the largest pool slot) built in functions, returned and kept in arrays
         let long = match self.opts.bias {
             Bias::Arrays => self.ch(1, 4),
@@ -3938,6 +3964,56 @@ impl Gen<'_> {
         self.note_out(12);
         self.stmts += 10;
         let m = self.cx.mult * 40;
+        match self.fx.last_mut() {
+            Some(fx) => fx.work += m,
+            None => self.est_work += m,
+        }
+        true
+    }
+
+    /// C05 / C01: `impure_chain` or `operand_order` (see the end of this file) as a block of its own; the expected
+    /// output computed there is not used here — the evaluator model is the reference of the `run` streams.
+    fn effect_idiom(&mut self) -> bool {
+        if !self.can_out(40) || self.cx.depth >= 4 || self.cx.loops_all >= 2 || self.cx.mult > 3 {
+            return false;
+        }
+        let (lines, exp) = if self.ch(1, 2) { impure_chain(self.rng) } else { operand_order(self.rng) };
+        let mut t: Vec<String> = vec![">start".to_string()];
+        t.extend(lines);
+        t.push("<".to_string());
+        self.push_scope();
+        self.emit_lines(&t);
+        self.env.pop();
+        self.note_out(exp.len());
+        self.stmts += 12;
+        let m = self.cx.mult * 120;
+        match self.fx.last_mut() {
+            Some(fx) => fx.work += m,
+            None => self.est_work += m,
+        }
+        true
+    }
+
+    /// C04: `make x get <literal of type A>` .. `make x get <literal of type B>` IN THE SAME BLOCK re-binds the same
+    /// variable whatever the two types are (number -> string -> bool -> array -> null, also the same type twice and a
+    /// dynamic initialiser as controls). Functions DEFINED BETWEEN two declarations use the name — plain read,
+    /// `{x}` placeholders (once, twice), `typeof`, `x get ..` writes, a read in a function nested in another one —
+    /// and are called after the later declarations: they see, and write, the variable as it is then. Hosts: a
+    /// block, a function body, a loop body, an if branch.
+    fn retype_redeclare(&mut self) -> bool {
+        if !self.can_out(30) || self.cx.depth >= 4 || self.cx.loops_all >= 2 || self.cx.mult > 3 {
+            return false;
+        }
+        let (lines, exp) = retype_program(self.rng);
+        let mut all: Vec<String> = vec![">start".to_string()];
+        all.extend(lines);
+        all.push("<".to_string());
+        self.push_scope();
+        self.emit_lines(&all);
+        self.env.pop();
+        self.note_out(exp.len());
+        self.stmts += 10;
+        let m = self.cx.mult * 60;
         match self.fx.last_mut() {
             Some(fx) => fx.work += m,
             None => self.est_work += m,
@@ -5005,4 +5081,1104 @@ pub fn product_cases() -> Vec<(String, String)> {
         ));
     }
     out
+}
+
+// ------------------------------------------------------------------------------------------------
+// Effect-order families: programs TOGETHER WITH the output that plain value semantics and strict
+// left-to-right, evaluate-every-operand-exactly-once evaluation give them (computed here, in Rust,
+// while the program is being generated — no model involved).
+//
+//   * `impure_chain`  — a mutating method (`push` / `pop` / `reverse`), an index ASSIGNMENT or a read whose
+//     receiver / target is an index chain `rows[e]`, `grid[e1][e2]`, `grid[e1][e2][k]` in which one or
+//     several index expressions are NOT pure: `queue.pop()`, a function popping the queue, a function
+//     advancing a cursor kept in a captured array, a function counting in a captured number, a function
+//     that prints, the same under arithmetic or as the index of a permutation table. Evaluating an index
+//     twice, or the indices in another order, selects another cell and leaves the queue / cursor / counter
+//     in another state.
+//   * `operand_order` — every construct with several operands (arguments of a user function, elements of
+//     an array literal, operands of a binary operator, receiver and arguments of a method, segments of an
+//     interpolated string next to another operand) where an EARLIER operand reads a variable — bare, through
+//     an index, through `.len()`, through a placeholder — and a LATER operand changes that variable through
+//     a capturing function (push / pop / reverse / index write / nested push / reassignment; arrays, nested
+//     arrays, strings, numbers). The earlier operand must keep the value it had when it was evaluated.
+//
+// Both are used twice: as idioms of the typed generator (`Gen::effect_idiom`, the evaluator model is the
+// reference) and as C05 template programs with `exp=` (`nvh run gen --kind c05`, tags `c05impure`, `c05order`).
+// ------------------------------------------------------------------------------------------------
+
+/// A value of the effect-order programs (`clone` = deep copy).
+#[derive(Clone, Debug, PartialEq)]
+pub enum Sv {
+    N(i64),
+    S(String),
+    B(bool),
+    Null,
+    A(Vec<Sv>),
+}
+
+impl Sv {
+    /// Display text of the real runtime: strings are quoted inside arrays only.
+    pub fn show(&self, top: bool) -> String {
+        match self {
+            Sv::N(n) => n.to_string(),
+            Sv::S(s) => {
+                if top {
+                    s.clone()
+                } else {
+                    format!("\"{s}\"")
+                }
+            }
+            Sv::B(b) => b.to_string(),
+            Sv::Null => "null".to_string(),
+            Sv::A(xs) => format!("[{}]", xs.iter().map(|x| x.show(false)).collect::<Vec<_>>().join(", ")),
+        }
+    }
+    fn lit(&self) -> String {
+        match self {
+            Sv::N(n) if *n < 0 => format!("(minus {})", -n),
+            _ => self.show(false),
+        }
+    }
+}
+
+fn sv_scalar(rng: &mut Rng) -> Sv {
+    if rng.chance(1, 2) {
+        Sv::N(rng.range(0, 99))
+    } else {
+        Sv::S((*rng.pick(&["p", "qq", "w x", "ab", "zed", ""])).to_string())
+    }
+}
+
+/// Where the statements of an effect-order program run.
+#[derive(Clone, Copy, Debug)]
+struct FxWrap {
+    /// the steps are the body of `do work() start .. end`, called once (variables are captured)
+    in_fn: bool,
+    /// the steps are the body of a loop with this many iterations (0: no loop)
+    iters: usize,
+    /// everything — variables, helper functions, steps — is the body of `do owner() start .. end`
+    owner: bool,
+}
+
+fn fx_wrap(rng: &mut Rng) -> FxWrap {
+    FxWrap { in_fn: rng.chance(1, 3), iters: if rng.chance(1, 3) { 1 + rng.below(2) as usize } else { 0 }, owner: rng.chance(1, 5) }
+}
+
+/// Lines in the `emit_lines` format (`>head` opens a block, `<` closes one) around prologue, steps, epilogue.
+fn fx_assemble(w: FxWrap, prologue: Vec<String>, steps: Vec<String>, epilogue: Vec<String>) -> Vec<String> {
+    let mut t = Vec::new();
+    if w.owner {
+        t.push(">do owner() start".to_string());
+    }
+    t.extend(prologue);
+    let mut body = Vec::new();
+    if w.iters > 0 {
+        body.push("make round get 0".to_string());
+        body.push(format!(">jasi (round small pass {}) start", w.iters));
+        body.push("round get round add 1".to_string());
+        body.extend(steps);
+        body.push("<".to_string());
+    } else {
+        body.extend(steps);
+    }
+    if w.in_fn {
+        t.push(">do work() start".to_string());
+        t.extend(body);
+        t.push("<".to_string());
+        t.push("work()".to_string());
+    } else {
+        t.extend(body);
+    }
+    t.extend(epilogue);
+    if w.owner {
+        t.push("<".to_string());
+        t.push("owner()".to_string());
+    }
+    t
+}
+
+/// The prologue without the definitions of functions no step calls (`do name(` .. up to its closing line).
+fn fx_prune(prologue: Vec<String>, steps: &[String]) -> Vec<String> {
+    let used = |name: &str| steps.iter().any(|l| l.contains(&format!("{name}(")));
+    let mut out = Vec::new();
+    let mut skipping = false;
+    for l in prologue {
+        let head = l.strip_prefix('>').unwrap_or(&l);
+        if let Some(rest) = head.strip_prefix("do ") {
+            let name = rest.split('(').next().unwrap_or("");
+            let keep = used(name);
+            if l.starts_with('>') {
+                skipping = !keep;
+            }
+            if keep {
+                out.push(l);
+            }
+            continue;
+        }
+        if skipping {
+            if l == "<" {
+                skipping = false;
+            }
+            continue;
+        }
+        out.push(l);
+    }
+    out
+}
+
+/// Plain program text of `emit_lines`-format lines (one statement per line, indented).
+pub fn render_lines(lines: &[String]) -> String {
+    let mut out = String::new();
+    let mut depth = 0usize;
+    for l in lines {
+        if let Some(head) = l.strip_prefix('>') {
+            out.push_str(&"    ".repeat(depth));
+            out.push_str(head);
+            out.push('\n');
+            depth += 1;
+        } else if l == "<" {
+            depth = depth.saturating_sub(1);
+            out.push_str(&"    ".repeat(depth));
+            out.push_str("end\n");
+        } else {
+            out.push_str(&"    ".repeat(depth));
+            out.push_str(l);
+            out.push('\n');
+        }
+    }
+    out
+}
+
+// ---------------------------------------------------------------- impure index chains
+
+/// An index expression and what evaluating it does.
+#[derive(Clone, Copy, Debug, PartialEq)]
+enum Ix {
+    /// `queue.pop()`
+    Pop,
+    /// `take()` — pops the captured queue inside a function
+    Take,
+    /// `slot()` — returns the cursor kept in a captured array and advances it
+    Slot,
+    /// `step()` — increments a captured number, returns it modulo n
+    Step,
+    /// `say(k)` — prints, returns k
+    Say(usize),
+    /// `(e add 1) mod n`
+    Shift(u8),
+    /// `idx[e]` — a pure read of a permutation table at an impure index
+    Perm(u8),
+    /// a literal (control)
+    Lit(usize),
+}
+
+#[derive(Clone, Debug)]
+enum ChainOp {
+    Push(Sv),
+    Pop,
+    Rev,
+    Set(usize, Sv),
+    Replace(Vec<Sv>),
+    Read(usize),
+    Len,
+}
+
+#[derive(Clone, Debug)]
+struct ChainStep {
+    deep: bool,
+    ix: Vec<Ix>,
+    op: ChainOp,
+}
+
+#[derive(Clone, Debug)]
+struct ChainState {
+    n: usize,
+    rows: Vec<Vec<Sv>>,
+    grid: Vec<Vec<Vec<Sv>>>,
+    queue: Vec<usize>,
+    perm: Vec<usize>,
+    cur: usize,
+    cnt: usize,
+    out: Vec<String>,
+}
+
+struct ChainNames {
+    rows: &'static str,
+    grid: &'static str,
+    queue: &'static str,
+}
+
+impl ChainState {
+    fn base(&mut self, k: u8) -> Option<usize> {
+        match k {
+            0 => self.queue.pop(),
+            1 => {
+                let c = self.cur;
+                self.cur = (c + 1) % self.n;
+                Some(c)
+            }
+            _ => {
+                self.cnt += 1;
+                Some(self.cnt % self.n)
+            }
+        }
+    }
+    fn ix(&mut self, ix: Ix) -> Option<usize> {
+        match ix {
+            Ix::Pop | Ix::Take => self.base(0),
+            Ix::Slot => self.base(1),
+            Ix::Step => self.base(2),
+            Ix::Say(k) => {
+                self.out.push(format!("at {k}"));
+                Some(k)
+            }
+            Ix::Shift(b) => self.base(b).map(|v| (v + 1) % self.n),
+            Ix::Perm(b) => self.base(b).map(|v| self.perm[v]),
+            Ix::Lit(k) => Some(k),
+        }
+    }
+    /// Evaluate the indices left to right, once each; then the operation on the addressed array.
+    fn apply(&mut self, st: &ChainStep) -> Option<()> {
+        let mut at = Vec::new();
+        for ix in &st.ix {
+            at.push(self.ix(*ix)?);
+        }
+        let cell: &mut Vec<Sv> = if st.deep { self.grid.get_mut(at[0])?.get_mut(at[1])? } else { self.rows.get_mut(at[0])? };
+        match &st.op {
+            ChainOp::Push(v) => {
+                if cell.len() >= 6 {
+                    return None;
+                }
+                cell.push(v.clone());
+            }
+            ChainOp::Pop => {
+                let v = cell.pop()?;
+                self.out.push(v.show(true));
+            }
+            ChainOp::Rev => cell.reverse(),
+            ChainOp::Set(k, v) => *cell.get_mut(*k)? = v.clone(),
+            ChainOp::Replace(vs) => *cell = vs.clone(),
+            ChainOp::Read(k) => {
+                let v = cell.get(*k)?.clone();
+                self.out.push(v.show(true));
+            }
+            ChainOp::Len => {
+                let n = cell.len();
+                self.out.push(n.to_string());
+            }
+        }
+        Some(())
+    }
+}
+
+fn ix_text(ix: Ix, n: usize, names: &ChainNames) -> String {
+    let base = |b: u8| match b {
+        0 => format!("{}.pop()", names.queue),
+        1 => "slot()".to_string(),
+        _ => "step()".to_string(),
+    };
+    match ix {
+        Ix::Pop => base(0),
+        Ix::Take => "take()".to_string(),
+        Ix::Slot => base(1),
+        Ix::Step => base(2),
+        Ix::Say(k) => format!("say({k})"),
+        Ix::Shift(b) => format!("({} add 1) mod {n}", base(b)),
+        Ix::Perm(b) => format!("idx[{}]", base(b)),
+        Ix::Lit(k) => k.to_string(),
+    }
+}
+
+fn chain_text(st: &ChainStep, n: usize, names: &ChainNames) -> String {
+    let root = if st.deep { names.grid } else { names.rows };
+    let path: String = st.ix.iter().map(|ix| format!("[{}]", ix_text(*ix, n, names))).collect();
+    let t = format!("{root}{path}");
+    match &st.op {
+        ChainOp::Push(v) => format!("{t}.push({})", v.lit()),
+        ChainOp::Pop => format!("shout({t}.pop())"),
+        ChainOp::Rev => format!("{t}.reverse()"),
+        ChainOp::Set(k, v) => format!("{t}[{k}] get {}", v.lit()),
+        ChainOp::Replace(vs) => format!("{t} get {}", Sv::A(vs.clone()).lit()),
+        ChainOp::Read(k) => format!("shout({t}[{k}])"),
+        ChainOp::Len => format!("shout({t}.len())"),
+    }
+}
+
+fn rand_ix(rng: &mut Rng, n: usize) -> Ix {
+    match rng.below(14) {
+        0..=2 => Ix::Pop,
+        3 => Ix::Take,
+        4 | 5 => Ix::Slot,
+        6 => Ix::Step,
+        7 | 8 => Ix::Say(rng.below(n as u64) as usize),
+        9 => Ix::Shift(rng.below(3) as u8),
+        10 => Ix::Perm(rng.below(3) as u8),
+        11 => Ix::Pop,
+        _ => Ix::Lit(rng.below(n as u64) as usize),
+    }
+}
+
+/// (lines in `emit_lines` format, expected output).
+pub fn impure_chain(rng: &mut Rng) -> (Vec<String>, Vec<String>) {
+    let n = 2 + rng.below(3) as usize;
+    let names = ChainNames {
+        rows: rng.pick(&["rows", "buckets", "lanes", "shelf"]),
+        grid: rng.pick(&["grid", "cube", "board", "field"]),
+        queue: rng.pick(&["queue", "picks", "order", "todo"]),
+    };
+    let row = |rng: &mut Rng| -> Vec<Sv> { (0..rng.below(3)).map(|_| sv_scalar(rng)).collect() };
+    let mut perm: Vec<usize> = (0..n).collect();
+    for i in (1..n).rev() {
+        perm.swap(i, rng.below(i as u64 + 1) as usize);
+    }
+    let init = ChainState {
+        n,
+        rows: (0..n).map(|_| row(rng)).collect(),
+        grid: (0..n).map(|_| (0..n).map(|_| row(rng)).collect()).collect(),
+        queue: (0..6 + rng.below(8)).map(|_| rng.below(n as u64) as usize).collect(),
+        perm,
+        cur: rng.below(n as u64) as usize,
+        cnt: rng.below(5) as usize,
+        out: Vec::new(),
+    };
+    let nums = |xs: &[usize]| Sv::A(xs.iter().map(|x| Sv::N(*x as i64)).collect());
+    let rows_v = |s: &ChainState| Sv::A(s.rows.iter().cloned().map(Sv::A).collect());
+    let grid_v = |s: &ChainState| Sv::A(s.grid.iter().map(|p| Sv::A(p.iter().cloned().map(Sv::A).collect())).collect());
+    let (rn, gn, qn) = (names.rows, names.grid, names.queue);
+    let prologue = vec![
+        format!("make {rn} get {}", rows_v(&init).lit()),
+        format!("make {gn} get {}", grid_v(&init).lit()),
+        format!("make {qn} get {}", nums(&init.queue).lit()),
+        format!("make idx get {}", nums(&init.perm).lit()),
+        format!("make cur get [{}]", init.cur),
+        format!("make cnt get {}", init.cnt),
+        ">do slot() start".to_string(),
+        "make c get cur[0]".to_string(),
+        format!("cur[0] get (c add 1) mod {n}"),
+        "return c".to_string(),
+        "<".to_string(),
+        ">do step() start".to_string(),
+        "cnt get cnt add 1".to_string(),
+        format!("return cnt mod {n}"),
+        "<".to_string(),
+        ">do say(k) start".to_string(),
+        "shout(\"at {k}\")".to_string(),
+        "return k".to_string(),
+        "<".to_string(),
+        format!("do take() start return {qn}.pop() end"),
+    ];
+    // the steps, generated by running them: a step that would fail now (empty queue, empty row) is not emitted
+    let mut st = init.clone();
+    let mut steps: Vec<ChainStep> = Vec::new();
+    let want = 3 + rng.below(5);
+    let mut tries = 0;
+    while (steps.len() as u64) < want && tries < 40 {
+        tries += 1;
+        let deep = rng.chance(2, 5);
+        let mut ix: Vec<Ix> = (0..if deep { 2 } else { 1 }).map(|_| rand_ix(rng, n)).collect();
+        if ix.iter().all(|i| matches!(i, Ix::Lit(_))) && rng.chance(4, 5) {
+            ix[0] = Ix::Pop;
+        }
+        let op = match rng.below(12) {
+            0..=3 => ChainOp::Push(sv_scalar(rng)),
+            4 | 5 => ChainOp::Pop,
+            6 => ChainOp::Rev,
+            7 | 8 => ChainOp::Set(rng.below(3) as usize, sv_scalar(rng)),
+            9 => ChainOp::Replace(row(rng)),
+            10 => ChainOp::Read(rng.below(2) as usize),
+            _ => ChainOp::Len,
+        };
+        let step = ChainStep { deep, ix, op };
+        let mut probe = st.clone();
+        if probe.apply(&step).is_some() {
+            st = probe;
+            steps.push(step);
+        }
+    }
+    let mut w = fx_wrap(rng);
+    // the expected output: every iteration of a loop runs the same statements on the state the previous one left
+    let replay = |iters: usize| -> Option<Vec<String>> {
+        let mut s = init.clone();
+        for _ in 0..iters.max(1) {
+            for step in &steps {
+                s.apply(step)?;
+                let v = if step.deep { grid_v(&s) } else { rows_v(&s) };
+                s.out.push(v.show(true));
+            }
+        }
+        let tail = [rows_v(&s), grid_v(&s), nums(&s.queue), Sv::A(vec![Sv::N(s.cur as i64)]), Sv::N(s.cnt as i64)];
+        s.out.extend(tail.iter().map(|v| v.show(true)));
+        Some(s.out)
+    };
+    let exp = match replay(w.iters) {
+        Some(e) => e,
+        None => {
+            w.iters = 0;
+            replay(0).expect("the steps ran once while they were generated")
+        }
+    };
+    let mut lines: Vec<String> = Vec::new();
+    for s in &steps {
+        lines.push(chain_text(s, n, &names));
+        lines.push(format!("shout({})", if s.deep { gn } else { rn }));
+    }
+    let epilogue = vec![
+        format!("shout({rn})"),
+        format!("shout({gn})"),
+        format!("shout({qn})"),
+        "shout(cur)".to_string(),
+        "shout(cnt)".to_string(),
+    ];
+    let prologue = fx_prune(prologue, &lines);
+    (fx_assemble(w, prologue, lines, epilogue), exp)
+}
+
+// ---------------------------------------------------------------- operand order
+
+/// Expressions of the operand-order programs.
+#[derive(Clone, Debug)]
+enum Oe {
+    Lit(Sv),
+    /// variable by index into `OrderNames::vars` (0 list, 1 nested, 2 string, 3 number)
+    Var(usize),
+    Idx(Box<Oe>, usize),
+    Len(Box<Oe>),
+    Arr(Vec<Oe>),
+    /// call of an EFFECT function (changes a captured variable) with literal arguments
+    Eff(usize, Vec<Sv>),
+    /// call of a function that only uses its parameters
+    Call(usize, Vec<Oe>),
+    Bin(&'static str, Box<Oe>, Box<Oe>),
+    Join(Box<Oe>, Box<Oe>),
+    Replace(Box<Oe>, &'static str, Box<Oe>),
+    Find(Box<Oe>, Box<Oe>),
+    /// `"pre{var}post"`
+    Interp(usize, &'static str, &'static str),
+}
+
+const EFF_NAMES: [&str; 13] =
+    ["note", "drop", "flip", "poke", "swap", "sep", "mark", "wipe", "cell", "rename", "retitle", "bump", "unrow"];
+/// Variable an effect function changes.
+const EFF_TARGET: [usize; 13] = [0, 0, 0, 0, 0, 0, 1, 1, 1, 2, 2, 3, 1];
+const CALLEE_NAMES: [&str; 8] = ["report", "pair", "first", "second", "triple", "grow", "head", "size"];
+
+struct OrderNames {
+    vars: [&'static str; 4],
+}
+
+#[derive(Clone, Debug)]
+struct OrderState {
+    vars: [Sv; 4],
+    /// what `swap()` / `wipe()` / `retitle()` store
+    swap_to: Sv,
+    wipe_to: Sv,
+    title_to: String,
+    out: Vec<String>,
+}
+
+impl OrderState {
+    fn arr_mut(&mut self, v: usize) -> Option<&mut Vec<Sv>> {
+        match &mut self.vars[v] {
+            Sv::A(xs) => Some(xs),
+            _ => None,
+        }
+    }
+    fn row_mut(&mut self, i: usize) -> Option<&mut Vec<Sv>> {
+        match self.arr_mut(1)?.get_mut(i)? {
+            Sv::A(r) => Some(r),
+            _ => None,
+        }
+    }
+    fn int(v: &Sv) -> Option<usize> {
+        match v {
+            Sv::N(n) if *n >= 0 => Some(*n as usize),
+            _ => None,
+        }
+    }
+    fn effect(&mut self, id: usize, args: &[Sv]) -> Option<Sv> {
+        Some(match id {
+            0 => {
+                let l = self.arr_mut(0)?;
+                if l.len() >= 8 {
+                    return None;
+                }
+                l.push(args[0].clone());
+                Sv::N(l.len() as i64)
+            }
+            1 => self.arr_mut(0)?.pop()?,
+            2 => {
+                let l = self.arr_mut(0)?;
+                l.reverse();
+                Sv::N(l.len() as i64)
+            }
+            3 => {
+                let i = Self::int(&args[0])?;
+                *self.arr_mut(0)?.get_mut(i)? = args[1].clone();
+                args[1].clone()
+            }
+            4 => {
+                self.vars[0] = self.swap_to.clone();
+                Sv::N(0)
+            }
+            5 => {
+                let l = self.arr_mut(0)?;
+                if l.len() >= 8 {
+                    return None;
+                }
+                l.push(args[0].clone());
+                Sv::S("+".into())
+            }
+            6 => {
+                let r = self.row_mut(Self::int(&args[0])?)?;
+                if r.len() >= 6 {
+                    return None;
+                }
+                r.push(args[1].clone());
+                Sv::N(r.len() as i64)
+            }
+            7 => {
+                self.vars[1] = self.wipe_to.clone();
+                Sv::N(1)
+            }
+            8 => {
+                let j = Self::int(&args[1])?;
+                *self.row_mut(Self::int(&args[0])?)?.get_mut(j)? = args[2].clone();
+                args[2].clone()
+            }
+            9 => {
+                let (Sv::S(s), Sv::S(v)) = (&self.vars[2], &args[0]) else { return None };
+                if s.len() > 40 {
+                    return None;
+                }
+                let t = format!("{s}{v}");
+                let n = t.len() as i64;
+                self.vars[2] = Sv::S(t);
+                Sv::N(n)
+            }
+            10 => {
+                self.vars[2] = Sv::S(self.title_to.clone());
+                Sv::S(self.title_to.to_uppercase())
+            }
+            11 => {
+                let Sv::N(k) = self.vars[3] else { return None };
+                self.vars[3] = Sv::N(k + 1);
+                Sv::N(k + 1)
+            }
+            _ => self.row_mut(Self::int(&args[0])?)?.pop()?,
+        })
+    }
+    fn callee(&mut self, id: usize, mut a: Vec<Sv>) -> Option<Sv> {
+        Some(match id {
+            0 => {
+                self.out.push(a[0].show(true));
+                a.swap_remove(1)
+            }
+            1 | 4 => Sv::A(a),
+            2 => a.swap_remove(0),
+            3 => a.swap_remove(1),
+            5 => {
+                let b = a[1].clone();
+                let Sv::A(mut xs) = a.swap_remove(0) else { return None };
+                xs.push(b);
+                Sv::A(xs)
+            }
+            6 => match &a[0] {
+                Sv::A(xs) => xs.first()?.clone(),
+                _ => return None,
+            },
+            _ => match &a[0] {
+                Sv::A(xs) => Sv::N(xs.len() as i64),
+                Sv::S(s) => Sv::N(s.len() as i64),
+                _ => return None,
+            },
+        })
+    }
+    /// Strictly left to right; every operand is a value (a deep copy) from the moment it is evaluated.
+    fn eval(&mut self, e: &Oe) -> Option<Sv> {
+        Some(match e {
+            Oe::Lit(v) => v.clone(),
+            Oe::Var(v) => self.vars[*v].clone(),
+            Oe::Idx(a, k) => match self.eval(a)? {
+                Sv::A(xs) => xs.get(*k)?.clone(),
+                _ => return None,
+            },
+            Oe::Len(a) => match self.eval(a)? {
+                Sv::A(xs) => Sv::N(xs.len() as i64),
+                Sv::S(s) => Sv::N(s.len() as i64),
+                _ => return None,
+            },
+            Oe::Arr(es) => {
+                let mut out = Vec::new();
+                for x in es {
+                    out.push(self.eval(x)?);
+                }
+                Sv::A(out)
+            }
+            Oe::Eff(id, args) => self.effect(*id, args)?,
+            Oe::Call(id, args) => {
+                let mut vals = Vec::new();
+                for x in args {
+                    vals.push(self.eval(x)?);
+                }
+                self.callee(*id, vals)?
+            }
+            Oe::Bin(op, l, r) => {
+                let (a, b) = (self.eval(l)?, self.eval(r)?);
+                match (*op, a, b) {
+                    ("add", Sv::N(x), Sv::N(y)) => Sv::N(x + y),
+                    ("minus", Sv::N(x), Sv::N(y)) => Sv::N(x - y),
+                    ("times", Sv::N(x), Sv::N(y)) => Sv::N(x * y),
+                    ("na", Sv::N(x), Sv::N(y)) => Sv::B(x == y),
+                    ("small pass", Sv::N(x), Sv::N(y)) => Sv::B(x < y),
+                    ("pass", Sv::N(x), Sv::N(y)) => Sv::B(x > y),
+                    ("add", Sv::S(x), Sv::S(y)) => Sv::S(x + &y),
+                    ("add", Sv::S(x), Sv::N(y)) => Sv::S(format!("{x}{y}")),
+                    ("na", Sv::S(x), Sv::S(y)) => Sv::B(x == y),
+                    _ => return None,
+                }
+            }
+            Oe::Join(a, s) => {
+                let (a, s) = (self.eval(a)?, self.eval(s)?);
+                let (Sv::A(xs), Sv::S(sep)) = (a, s) else { return None };
+                let mut parts = Vec::new();
+                for x in xs {
+                    let Sv::S(t) = x else { return None };
+                    parts.push(t);
+                }
+                Sv::S(parts.join(&sep))
+            }
+            Oe::Replace(s, needle, new) => {
+                let (s, new) = (self.eval(s)?, self.eval(new)?);
+                let (Sv::S(s), Sv::S(new)) = (s, new) else { return None };
+                Sv::S(s.replace(needle, &new))
+            }
+            Oe::Find(s, needle) => {
+                let (s, needle) = (self.eval(s)?, self.eval(needle)?);
+                let (Sv::S(s), Sv::S(needle)) = (s, needle) else { return None };
+                Sv::N(s.find(&needle).map_or(-1, |i| i as i64))
+            }
+            Oe::Interp(v, pre, post) => Sv::S(format!("{pre}{}{post}", self.vars[*v].show(true))),
+        })
+    }
+}
+
+fn oe_text(e: &Oe, names: &OrderNames) -> String {
+    let list = |es: &[Oe]| es.iter().map(|x| oe_text(x, names)).collect::<Vec<_>>().join(", ");
+    match e {
+        Oe::Lit(v) => v.lit(),
+        Oe::Var(v) => names.vars[*v].to_string(),
+        Oe::Idx(a, k) => format!("{}[{k}]", oe_text(a, names)),
+        Oe::Len(a) => format!("{}.len()", oe_text(a, names)),
+        Oe::Arr(es) => format!("[{}]", list(es)),
+        Oe::Eff(id, args) => format!("{}({})", EFF_NAMES[*id], args.iter().map(Sv::lit).collect::<Vec<_>>().join(", ")),
+        Oe::Call(id, args) => format!("{}({})", CALLEE_NAMES[*id], list(args)),
+        Oe::Bin(op, l, r) => format!("({} {op} {})", oe_text(l, names), oe_text(r, names)),
+        Oe::Join(a, s) => format!("{}.join({})", oe_text(a, names), oe_text(s, names)),
+        Oe::Replace(s, needle, new) => format!("{}.replace(\"{needle}\", {})", oe_text(s, names), oe_text(new, names)),
+        Oe::Find(s, needle) => format!("{}.find({})", oe_text(s, names), oe_text(needle, names)),
+        Oe::Interp(v, pre, post) => format!("\"{pre}{{{}}}{post}\"", names.vars[*v]),
+    }
+}
+
+/// An effect call on variable `x` that is possible in state `st` (probed on a copy), with its result kind:
+/// 'n' number, 's' string, 'd' anything.
+fn rand_effect(rng: &mut Rng, st: &OrderState, x: usize, strings: bool) -> Option<(Oe, char)> {
+    for _ in 0..8 {
+        let el = |rng: &mut Rng| if strings { Sv::S((*rng.pick(&["p", "qq", "ab", "zed"])).to_string()) } else { Sv::N(rng.range(0, 99)) };
+        let small = |rng: &mut Rng| Sv::N(rng.range(0, 2));
+        let (id, args, kind): (usize, Vec<Sv>, char) = match x {
+            0 => match rng.below(8) {
+                0 | 1 => (0, vec![el(rng)], 'n'),
+                2 => (1, vec![], 'd'),
+                3 => (2, vec![], 'n'),
+                4 => (3, vec![small(rng), el(rng)], 'd'),
+                5 => (4, vec![], 'n'),
+                6 => (5, vec![el(rng)], 's'),
+                _ => (0, vec![el(rng)], 'n'),
+            },
+            1 => match rng.below(5) {
+                0 | 1 => (6, vec![small(rng), sv_scalar(rng)], 'n'),
+                2 => (7, vec![], 'n'),
+                3 => (8, vec![small(rng), small(rng), sv_scalar(rng)], 'd'),
+                _ => (12, vec![small(rng)], 'd'),
+            },
+            2 => {
+                if rng.chance(1, 2) {
+                    (9, vec![Sv::S((*rng.pick(&["x", "yz", "-a-"])).to_string())], 'n')
+                } else {
+                    (10, vec![], 's')
+                }
+            }
+            _ => (11, vec![], 'n'),
+        };
+        let mut probe = st.clone();
+        if probe.effect(id, &args).is_some() {
+            return Some((Oe::Eff(id, args), kind));
+        }
+    }
+    None
+}
+
+/// One multi-operand expression in which an earlier operand reads variable `x` and a later one changes it.
+fn rand_order_expr(rng: &mut Rng, st: &OrderState, strings: bool) -> Option<(Oe, usize)> {
+    let x = *rng.pick(&[0usize, 0, 0, 1, 1, 2, 2, 3]);
+    let (e, kind) = rand_effect(rng, st, x, strings)?;
+    let v = || Box::new(Oe::Var(x));
+    let two = |rng: &mut Rng| *rng.pick(&[0usize, 1, 2, 3, 1, 0]);
+    let expr = match x {
+        0 | 1 => match rng.below(14) {
+            0..=2 => Oe::Call(two(rng), vec![Oe::Var(x), e]),
+            3 => Oe::Call(*rng.pick(&[5usize, 6, 7]), vec![Oe::Var(x), e]),
+            4 => Oe::Call(two(rng), vec![e, Oe::Var(x)]),
+            5 => Oe::Call(4, vec![Oe::Var(x), e, Oe::Var(x)]),
+            6 => Oe::Arr(vec![Oe::Var(x), e]),
+            7 => Oe::Arr(vec![Oe::Var(x), e, Oe::Var(x)]),
+            8 => Oe::Arr(vec![Oe::Arr(vec![Oe::Var(x)]), e]),
+            9 => Oe::Arr(vec![Oe::Idx(v(), 0), e, Oe::Idx(v(), 0)]),
+            10 => Oe::Arr(vec![Oe::Len(v()), e, Oe::Len(v())]),
+            11 if kind == 'n' => Oe::Bin(*rng.pick(&["add", "minus", "times", "na", "small pass"]), Box::new(Oe::Len(v())), Box::new(e)),
+            12 if kind == 's' && strings && x == 0 => Oe::Join(v(), Box::new(e)),
+            _ => Oe::Call(1, vec![Oe::Var(x), Oe::Call(two(rng), vec![e, Oe::Var(x)])]),
+        },
+        2 => match rng.below(10) {
+            0 => Oe::Call(two(rng), vec![Oe::Var(x), e]),
+            1 => Oe::Arr(vec![Oe::Var(x), e, Oe::Var(x)]),
+            2 => Oe::Bin("add", v(), Box::new(e)),
+            3 if kind == 's' => Oe::Bin("na", v(), Box::new(e)),
+            4 if kind == 's' => Oe::Replace(v(), rng.pick(&["a", "e", "t", "it"]), Box::new(e)),
+            5 if kind == 's' => Oe::Find(v(), Box::new(e)),
+            6 => Oe::Bin("add", Box::new(Oe::Interp(x, "<", ">")), Box::new(e)),
+            7 => Oe::Arr(vec![Oe::Interp(x, "", "!"), e, Oe::Interp(x, "", "")]),
+            8 if kind == 'n' => Oe::Bin(*rng.pick(&["add", "minus", "na", "pass"]), Box::new(Oe::Len(v())), Box::new(e)),
+            _ => Oe::Call(7, vec![Oe::Var(x), e]),
+        },
+        _ => match rng.below(6) {
+            0 | 1 => Oe::Bin(*rng.pick(&["add", "minus", "times", "na", "small pass", "pass"]), v(), Box::new(e)),
+            2 => Oe::Bin(*rng.pick(&["minus", "times", "small pass"]), Box::new(e), v()),
+            3 => Oe::Arr(vec![Oe::Var(x), e, Oe::Var(x)]),
+            4 => Oe::Bin("add", Box::new(Oe::Interp(x, "k=", "")), Box::new(e)),
+            _ => Oe::Call(two(rng), vec![Oe::Var(x), e]),
+        },
+    };
+    Some((expr, x))
+}
+
+/// (lines in `emit_lines` format, expected output).
+pub fn operand_order(rng: &mut Rng) -> (Vec<String>, Vec<String>) {
+    let strings = rng.chance(1, 2);
+    let names = OrderNames {
+        vars: [
+            rng.pick(&["log", "trail", "seen", "items"]),
+            rng.pick(&["board", "table", "nest"]),
+            rng.pick(&["title", "label", "name"]),
+            rng.pick(&["total", "count", "level"]),
+        ],
+    };
+    let el = |rng: &mut Rng| if strings { Sv::S((*rng.pick(&["start", "a", "it", "te"])).to_string()) } else { Sv::N(rng.range(0, 99)) };
+    let list = |rng: &mut Rng, lo: u64| Sv::A((0..lo + rng.below(3)).map(|_| el(rng)).collect());
+    let nest = |rng: &mut Rng| Sv::A((0..3).map(|_| Sv::A((0..1 + rng.below(3)).map(|_| sv_scalar(rng)).collect())).collect());
+    let title = |rng: &mut Rng| (*rng.pick(&["state", "attic", "title", "e", "a tale"])).to_string();
+    let init = OrderState {
+        vars: [list(rng, 1), nest(rng), Sv::S(title(rng)), Sv::N(rng.range(0, 9))],
+        swap_to: list(rng, 0),
+        wipe_to: nest(rng),
+        title_to: title(rng),
+        out: Vec::new(),
+    };
+    let [l, b, s, k] = names.vars;
+    let mut prologue: Vec<String> = (0..4).map(|i| format!("make {} get {}", names.vars[i], init.vars[i].lit())).collect();
+    prologue.extend(
+        [
+            format!("do note(v) start {l}.push(v)  return {l}.len() end"),
+            format!("do drop() start return {l}.pop() end"),
+            format!(">do flip() start"),
+            format!("{l}.reverse()"),
+            format!("return {l}.len()"),
+            "<".to_string(),
+            format!(">do poke(i, v) start"),
+            format!("{l}[i] get v"),
+            "return v".to_string(),
+            "<".to_string(),
+            format!(">do swap() start"),
+            format!("{l} get {}", init.swap_to.lit()),
+            "return 0".to_string(),
+            "<".to_string(),
+            format!(">do sep(v) start"),
+            format!("{l}.push(v)"),
+            "return \"+\"".to_string(),
+            "<".to_string(),
+            format!("do mark(i, v) start {b}[i].push(v)  return {b}[i].len() end"),
+            format!(">do wipe() start"),
+            format!("{b} get {}", init.wipe_to.lit()),
+            "return 1".to_string(),
+            "<".to_string(),
+            format!(">do cell(i, j, v) start"),
+            format!("{b}[i][j] get v"),
+            "return v".to_string(),
+            "<".to_string(),
+            format!("do unrow(i) start return {b}[i].pop() end"),
+            format!(">do rename(v) start"),
+            format!("{s} get {s} add v"),
+            format!("return {s}.len()"),
+            "<".to_string(),
+            format!(">do retitle() start"),
+            format!("{s} get \"{}\"", init.title_to),
+            format!("return \"{}\"", init.title_to.to_uppercase()),
+            "<".to_string(),
+            format!(">do bump() start"),
+            format!("{k} get {k} add 1"),
+            format!("return {k}"),
+            "<".to_string(),
+            ">do report(a, b) start".to_string(),
+            "shout(a)".to_string(),
+            "return b".to_string(),
+            "<".to_string(),
+            "do pair(a, b) start return [a, b] end".to_string(),
+            "do first(a, b) start return a end".to_string(),
+            "do second(a, b) start return b end".to_string(),
+            "do triple(a, b, c) start return [a, b, c] end".to_string(),
+            ">do grow(a, b) start".to_string(),
+            "a.push(b)".to_string(),
+            "return a".to_string(),
+            "<".to_string(),
+            "do head(a, b) start return a[0] end".to_string(),
+            "do size(a, b) start return a.len() end".to_string(),
+            "make kept get [0]".to_string(),
+            "make held get null".to_string(),
+        ]
+        .into_iter(),
+    );
+    // statements, generated by running them
+    #[derive(Clone)]
+    struct Step {
+        e: Oe,
+        x: usize,
+        form: u8,
+    }
+    let run_step = |st: &mut OrderState, step: &Step, kept: &mut Vec<Sv>| -> Option<()> {
+        let v = st.eval(&step.e)?;
+        match step.form {
+            0 | 1 => st.out.push(v.show(true)),
+            2 => {
+                if kept.len() >= 6 {
+                    return None;
+                }
+                kept.push(v);
+                st.out.push(Sv::A(kept.clone()).show(true));
+            }
+            _ => {
+                kept[0] = v;
+                st.out.push(Sv::A(kept.clone()).show(true));
+            }
+        }
+        let after = st.vars[step.x].show(true);
+        st.out.push(after);
+        Some(())
+    };
+    let mut st = init.clone();
+    let mut kept = vec![Sv::N(0)];
+    let mut steps: Vec<Step> = Vec::new();
+    let want = 3 + rng.below(5);
+    let mut tries = 0;
+    while (steps.len() as u64) < want && tries < 40 {
+        tries += 1;
+        let Some((e, x)) = rand_order_expr(rng, &st, strings) else { continue };
+        let step = Step { e, x, form: *rng.pick(&[0u8, 0, 0, 1, 2, 3]) };
+        let (mut probe, mut pk) = (st.clone(), kept.clone());
+        if run_step(&mut probe, &step, &mut pk).is_some() {
+            st = probe;
+            kept = pk;
+            steps.push(step);
+        }
+    }
+    let mut w = fx_wrap(rng);
+    let replay = |iters: usize| -> Option<Vec<String>> {
+        let (mut s, mut kept) = (init.clone(), vec![Sv::N(0)]);
+        for _ in 0..iters.max(1) {
+            for step in &steps {
+                run_step(&mut s, step, &mut kept)?;
+            }
+        }
+        let tail: Vec<String> = s.vars.iter().map(|v| v.show(true)).collect();
+        s.out.extend(tail);
+        Some(s.out)
+    };
+    let exp = match replay(w.iters) {
+        Some(e) => e,
+        None => {
+            w.iters = 0;
+            replay(0).expect("the steps ran once while they were generated")
+        }
+    };
+    let mut lines: Vec<String> = Vec::new();
+    for step in &steps {
+        let t = oe_text(&step.e, &names);
+        match step.form {
+            0 => lines.push(format!("shout({t})")),
+            1 => {
+                lines.push(format!("held get {t}"));
+                lines.push("shout(held)".to_string());
+            }
+            2 => {
+                lines.push(format!("kept.push({t})"));
+                lines.push("shout(kept)".to_string());
+            }
+            _ => {
+                lines.push(format!("kept[0] get {t}"));
+                lines.push("shout(kept)".to_string());
+            }
+        }
+        lines.push(format!("shout({})", names.vars[step.x]));
+    }
+    let epilogue: Vec<String> = names.vars.iter().map(|n| format!("shout({n})")).collect();
+    let prologue = fx_prune(prologue, &lines);
+    (fx_assemble(w, prologue, lines, epilogue), exp)
+}
+
+// ---------------------------------------------------------------- same-block re-declaration at another type
+
+fn sv_typeof(v: &Sv) -> &'static str {
+    match v {
+        Sv::N(_) => "number",
+        Sv::S(_) => "string",
+        Sv::B(_) => "boolean",
+        Sv::Null => "null",
+        Sv::A(_) => "array",
+    }
+}
+
+/// (lines in `emit_lines` format, expected output) of one re-declaration program (see `Gen::retype_redeclare`).
+/// Every name of the program is declared in ONE scope only, so lexical lookup, lookup by resolver binding and
+/// lookup by name coincide on it.
+pub fn retype_program(rng: &mut Rng) -> (Vec<String>, Vec<String>) {
+    let x = *rng.pick(&["x", "v", "item", "cfg", "state", "who"]);
+    let values = |rng: &mut Rng, ty: u64| -> Sv {
+        match ty {
+            0 => Sv::N(*rng.pick(&[1, 42, 7, 0])),
+            1 => Sv::S((*rng.pick(&["two", "", "a b"])).to_string()),
+            2 => Sv::B(rng.chance(1, 2)),
+            3 => rng.pick(&[Sv::A(vec![Sv::N(3)]), Sv::A(vec![]), Sv::A(vec![Sv::S("e".into()), Sv::N(4)])]).clone(),
+            _ => Sv::Null,
+        }
+    };
+    let decls = 2 + rng.below(3);
+    let mut t: Vec<String> = Vec::new();
+    let mut exp: Vec<String> = Vec::new();
+    let mut fns: Vec<(String, u8)> = Vec::new();
+    let mut cur = Sv::Null;
+    let mut last_ty = u64::MAX;
+    let mut nfn = 0;
+    // what a call of reader `kind` prints now
+    let read = |kind: u8, cur: &Sv| -> String {
+        let top = cur.show(true);
+        match kind {
+            0 => top,
+            1 => format!("<{top}>"),
+            2 => format!("{top}|{top}"),
+            3 => sv_typeof(cur).to_string(),
+            _ => Sv::A(vec![cur.clone(), Sv::S(top)]).show(true),
+        }
+    };
+    for d in 0..decls {
+        // the next type: mostly another definite one, now and then the same one or a dynamic initialiser
+        let mut ty = rng.below(5);
+        if ty == last_ty && !rng.chance(1, 6) {
+            ty = (ty + 1 + rng.below(4)) % 5;
+        }
+        last_ty = ty;
+        let val = values(rng, ty);
+        if d > 0 && rng.chance(1, 10) {
+            t.push(format!("make {x} get same({})", val.lit()));
+            cur = val;
+        } else if ty == 1 && rng.chance(1, 6) {
+            t.push(format!("make {x} get {} add \"!\"", val.lit()));
+            cur = Sv::S(format!("{}!", val.show(true)));
+        } else if ty == 0 && rng.chance(1, 6) {
+            t.push(format!("make {x} get {} add 1", val.lit()));
+            let Sv::N(n) = val else { unreachable!() };
+            cur = Sv::N(n + 1);
+        } else {
+            t.push(format!("make {x} get {}", val.lit()));
+            cur = val;
+        }
+        // everything defined so far is used after this declaration
+        if d > 0 {
+            for (f, kind) in fns.clone() {
+                if exp.len() >= 24 {
+                    break;
+                }
+                if kind == 4 {
+                    let nty = rng.below(5);
+                    let nv = values(rng, nty);
+                    t.push(format!("{f}({})", nv.lit()));
+                    t.push(format!("shout({x})"));
+                    cur = nv;
+                    exp.push(cur.show(true));
+                } else {
+                    t.push(format!("shout({f}())"));
+                    exp.push(read(kind, &cur));
+                }
+            }
+            t.push(format!("shout({x})"));
+            t.push(format!("shout(typeof({x}))"));
+            exp.push(cur.show(true));
+            exp.push(sv_typeof(&cur).to_string());
+        }
+        if d + 1 < decls {
+            // functions defined between this declaration and the next
+            for _ in 0..1 + rng.below(2) {
+                let kind = rng.below(6) as u8;
+                let f = format!("{}{nfn}", ["rd", "ph", "pp", "ty", "wr", "nr"][kind as usize]);
+                nfn += 1;
+                match kind {
+                    0 => t.push(format!("do {f}() start return {x} end")),
+                    1 => t.push(format!("do {f}() start return \"<{{{x}}}>\" end")),
+                    2 => t.push(format!("do {f}() start return \"{{{x}}}|{{{x}}}\" end")),
+                    3 => t.push(format!("do {f}() start return typeof({x}) end")),
+                    4 => t.push(format!("do {f}(n) start {x} get n end")),
+                    _ => {
+                        t.push(format!(">do {f}() start"));
+                        t.push(format!("do deep{nfn}() start return [{x}, \"{{{x}}}\"] end"));
+                        t.push(format!("return deep{nfn}()"));
+                        t.push("<".to_string());
+                    }
+                }
+                fns.push((f.clone(), kind));
+                if kind != 4 && rng.chance(1, 3) && exp.len() < 24 {
+                    // used before the next declaration as well
+                    t.push(format!("shout({f}())"));
+                    exp.push(read(kind, &cur));
+                }
+            }
+        }
+    }
+    let mut all: Vec<String> = Vec::new();
+    if t.iter().any(|l| l.contains("same(")) {
+        all.push("do same(q) start return q end".to_string());
+    }
+    match rng.below(5) {
+        0 | 1 => all.extend(t),
+        2 => {
+            all.push(">do redecl() start".to_string());
+            all.extend(t);
+            all.push(format!("return {x}"));
+            all.push("<".to_string());
+            all.push("shout(redecl())".to_string());
+            exp.push(cur.show(true));
+        }
+        3 => {
+            all.push("make once get true".to_string());
+            all.push(">jasi (once) start".to_string());
+            all.push("once get false".to_string());
+            all.extend(t);
+            all.push("<".to_string());
+        }
+        _ => {
+            all.push("make gate get 1".to_string());
+            all.push(">if to say (gate na 1) start".to_string());
+            all.extend(t);
+            all.push("<".to_string());
+        }
+    }
+    (all, exp)
 }
